@@ -170,6 +170,29 @@ func runC17(c *Ctx) {
 				}
 				return s
 			}
+			outArr := func(a []vector3.Float64) string {
+				s := ""
+				for i, v := range a {
+					if i > 0 {
+						s += " "
+					}
+					s += vF(v)
+				}
+				return s
+			}
+			nS := F(float64(n))
+			// every public path that maps a transform over positions must be the pointwise image
+			c.Emit("c17.holds.pointwise", Fs(0)+" "+qF(u1)+" "+nS+args+" "+out(m.Rotate(u1)), "true")
+			c.Emit("c17.holds.pointwise", Fs(0)+" "+qF(u1)+" "+nS+args+" "+outArr(u1.RotateArray(pts)), "true")
+			c.Emit("c17.holds.pointwise", Fs(1)+" "+vF(tp)+" "+nS+args+" "+out(m.Translate(tp)), "true")
+			c.Emit("c17.holds.pointwise", Fs(2)+" "+vF(ts)+" "+nS+args+" "+out(m.Scale(ts)), "true")
+			trsArgs := vF(tp) + " " + qF(u1) + " " + vF(ts)
+			c.Emit("c17.holds.pointwise", Fs(3)+" "+trsArgs+" "+nS+args+" "+out(m.ApplyTRS(t)), "true")
+			c.Emit("c17.holds.pointwise", Fs(3)+" "+trsArgs+" "+nS+args+" "+outArr(t.TransformArray(pts)), "true")
+			inPlace := append([]vector3.Float64{}, pts...)
+			t.TransformInPlace(inPlace)
+			c.Emit("c17.holds.pointwise", Fs(3)+" "+trsArgs+" "+nS+args+" "+outArr(inPlace), "true")
+			c.Emit("c17.trs.array", trsArgs+args, outArr(t.TransformArray(pts)))
 			c.Emit("c17.mesh.rotate", qF(u1)+args, out(m.Rotate(u1)))
 			c.Emit("c17.mesh.translate", vF(tp)+args, out(m.Translate(tp)))
 			c.Emit("c17.mesh.scale", vF(ts)+args, out(m.Scale(ts)))
